@@ -416,7 +416,7 @@ def gen_annot(chk):
             if len(set(packs)) == n and (black or 0 not in packs):
                 return rows
     # str names whose UTF-8 encoding is 2 or more bytes longer than the character count, too
-    names_pool = ['unknown', 'bankssts', 'G_and_S_frontomargin', 'é', '', 'n' * 300, 'a b', 'éü', '中文', 'größe-ßß', 'x\x00y']
+    names_pool = ['unknown', 'bankssts', 'G_and_S_frontomargin', 'é', '', 'n' * 300, 'a b', 'éü', '中文', 'gyrus précentral', 'x\x00y']
     k = 0
     for n in range(1, 6):
         for nl in (1, 2, 5):
@@ -486,9 +486,9 @@ def run_annot(chk, path, cases=None):
                 o['ctab'] = [[int(x) for x in r] for r in rc]
                 o['names'] = [bytes(x) for x in rn]
                 o['orig'] = [int(x) for x in ol]
-            except IndexError as e:
-                o['rerr'] = 'index'
-        except (ValueError, IndexError) as e:
+            except Exception as e:   # noqa  (any exception on reading back a written file is an outcome, by type)
+                o['rerr'] = type(e).__name__
+        except Exception as e:   # noqa
             o['err'] = type(e).__name__
             chk.refusal('annot:' + type(e).__name__)
         obs.append(o)
@@ -521,9 +521,9 @@ def run_annot(chk, path, cases=None):
             if mw != 'ok ' + hx(o['raw']):
                 dis.append(('write_annot bytes', mw[:300], hx(o['raw'])[:300]))
             if 'rerr' in o:
-                if got.get(f'a{i}.r') != 'err index':
-                    dis.append(('read_annot error', got.get(f'a{i}.r', '')[:100], 'IndexError'))
-                pred = 'read_annot raised IndexError on a file written by write_annot'
+                if not got.get(f'a{i}.r', '').startswith('err '):
+                    dis.append(('read_annot error', got.get(f'a{i}.r', '')[:100], o['rerr']))
+                pred = f"read_annot raised {o['rerr']} on a file written by write_annot"
             else:
                 if got.get(f'a{i}.r') != fmt_read(o['labels'], o['ctab'], o['names']):
                     dis.append(('read_annot', got.get(f'a{i}.r', '')[:300], fmt_read(o['labels'], o['ctab'], o['names'])[:300]))
